@@ -25,7 +25,34 @@ import (
 type c30Field struct {
 	Kind  string `json:"kind"`  // label | tooltip | link | id | class | edge-label | arrowhead-label | icon | column | field | code | gradient | legend | board
 	Extra string `json:"extra"` // additional hostile text placed before the canary
+	Shape string `json:"shape,omitempty"` // for id / label / container-label: the shape keyword
+	Flag  string `json:"flag,omitempty"`  // … and a style flag (3d, multiple, double-border, shadow, …)
 }
+
+// decor is the attribute block that gives the object of a field its shape and style flag:
+// several renderers build element ids and masks from the object's ID for such shapes.
+func (f c30Field) decor() string {
+	var parts []string
+	if f.Shape != "" {
+		parts = append(parts, "shape: "+f.Shape)
+	}
+	if f.Flag != "" {
+		switch f.Flag {
+		case "fill-pattern":
+			parts = append(parts, "style.fill-pattern: dots")
+		case "border-radius":
+			parts = append(parts, "style.border-radius: 8")
+		case "animated", "stroke-dash":
+			parts = append(parts, "style.stroke-dash: 3")
+		default:
+			parts = append(parts, "style."+f.Flag+": true")
+		}
+	}
+	return strings.Join(parts, "; ")
+}
+
+var c30Shapes = []string{"rectangle", "square", "page", "parallelogram", "document", "cylinder", "queue", "package", "step", "callout", "stored_data", "person", "diamond", "oval", "circle", "hexagon", "cloud", "c4-person"}
+var c30Flags = []string{"3d", "multiple", "double-border", "shadow", "fill-pattern", "border-radius", "stroke-dash"}
 
 type c30Case struct {
 	Fields []c30Field `json:"fields"`
@@ -53,13 +80,13 @@ func (c c30Case) text() string {
 		}
 		switch f.Kind {
 		case "label":
-			fmt.Fprintf(&sb, "o%d: %s\n", i, q(v))
+			fmt.Fprintf(&sb, "o%d: %s {%s}\n", i, q(v), f.decor())
 		case "tooltip":
 			fmt.Fprintf(&sb, "o%d: {tooltip: %s}\n", i, q(v))
 		case "link":
 			fmt.Fprintf(&sb, "o%d: {link: %s}\n", i, q("https://example.com/?q="+v))
 		case "id":
-			fmt.Fprintf(&sb, "%s: plain\n", q("id"+v))
+			fmt.Fprintf(&sb, "%s: plain {%s}\n", q("id"+v), f.decor())
 			fmt.Fprintf(&tail, "%s -> o0x\n", q("id"+v))
 		case "class":
 			fmt.Fprintf(&sb, "o%d: {class: %s}\n", i, q("cls"+strings.ReplaceAll(v, "\n", " ")))
@@ -76,13 +103,26 @@ func (c c30Case) text() string {
 		case "code":
 			fmt.Fprintf(&sb, "o%d: |||go\n  x := `%s`\n|||\n", i, strings.ReplaceAll(v, "\n", " "))
 		case "gradient":
-			fmt.Fprintf(&sb, "o%d: {style.fill: %s}\n", i, q("linear-gradient(#000 0%, #fff 10"+strings.ReplaceAll(v, "\n", " ")+")"))
+			// a colour stop is "<colour> <position>" split at blanks, a stop with more than two
+			// words is dropped: the canary must be free of blanks to reach the output
+			nb := func(x string) string {
+				return strings.NewReplacer(" ", "", "\n", "", "\t", "", ",", "", "(", "", ")", "").Replace(x)
+			}
+			gc := nb(f.Extra) + fmt.Sprintf(`"/><zq%d/><z`, i)
+			switch i % 3 {
+			case 0:
+				fmt.Fprintf(&sb, "o%d: {style.fill: %s}\n", i, q("linear-gradient(#000 0%, #fff 10"+gc+")"))
+			case 1:
+				fmt.Fprintf(&sb, "o%d: {style.fill: %s}\n", i, q("radial-gradient(red"+gc+", blue)"))
+			default:
+				fmt.Fprintf(&sb, "o%d: {style.stroke: %s}\n", i, q("linear-gradient(to right"+gc+", #000"+gc+" 0%, #fff)"))
+			}
 		case "legend":
 			fmt.Fprintf(&tail, "vars: {d2-legend: {l%d: %s}}\n", i, q(v))
 		case "text-shape":
 			fmt.Fprintf(&sb, "o%d: %s {shape: text}\n", i, q(v))
 		case "container-label":
-			fmt.Fprintf(&sb, "o%d: %s {inner%d}\n", i, q(v), i)
+			fmt.Fprintf(&sb, "o%d: %s {inner%d; %s}\n", i, q(v), i, f.decor())
 		}
 	}
 	sb.WriteString("o0x\n")
@@ -181,7 +221,14 @@ func genC30(t *rapid.T) c30Case {
 			}
 			hasLegend = true
 		}
-		c.Fields = append(c.Fields, c30Field{Kind: k, Extra: rapid.SampledFrom(c30Extras).Draw(t, "extra")})
+		f := c30Field{Kind: k, Extra: rapid.SampledFrom(c30Extras).Draw(t, "extra")}
+		if (k == "id" || k == "label" || k == "container-label") && rapid.Bool().Draw(t, "decorated") {
+			f.Shape = rapid.SampledFrom(c30Shapes).Draw(t, "shape")
+			if rapid.Bool().Draw(t, "flagged") {
+				f.Flag = rapid.SampledFrom(c30Flags).Draw(t, "flag")
+			}
+		}
+		c.Fields = append(c.Fields, f)
 	}
 	c.Opts.Sketch = gen.Pick(t, "sketch", 6, 1) == 1
 	c.Opts.Dark = gen.Pick(t, "dark", 3, 1) == 1
@@ -205,6 +252,20 @@ func coreC30() []c30Case {
 	out = append(out, c30Case{Engine: "dagre", Fields: all}, c30Case{Engine: "elk", Fields: all, Appendix: true})
 	for _, o := range []renderOpts{{Sketch: true}, {Dark: true}, {Pad: 7}, {Scale: "2"}, {Center: true}, {NoXML: true}, {Theme: 300}} {
 		out = append(out, c30Case{Engine: "dagre", Fields: all, Opts: o, Appendix: true})
+	}
+	// every shape with every style flag (and none), the hostile text in the object's ID, its
+	// label and a container's label; plain and sketch
+	for si, sh := range c30Shapes {
+		for fi, fl := range append([]string{""}, c30Flags...) {
+			cs := c30Case{Engine: "dagre", Fields: []c30Field{{Kind: "id", Extra: "a.b ", Shape: sh, Flag: fl}, {Kind: "label", Extra: "a & b ", Shape: sh, Flag: fl}, {Kind: "container-label", Extra: "", Shape: sh, Flag: fl}}}
+			cs.Opts.Sketch = (si+fi)%2 == 1
+			out = append(out, cs)
+			if fl == "3d" || fl == "multiple" {
+				cs2 := cs
+				cs2.Opts.Sketch = !cs.Opts.Sketch
+				out = append(out, cs2)
+			}
+		}
 	}
 	for _, e := range c30Extras {
 		out = append(out, c30Case{Engine: "dagre", Fields: []c30Field{{Kind: "label", Extra: e}, {Kind: "tooltip", Extra: e}, {Kind: "edge-label", Extra: e}, {Kind: "id", Extra: e}, {Kind: "class", Extra: e}}, Appendix: true})
